@@ -7,6 +7,7 @@ pub mod c05;
 pub mod c06;
 pub mod c07;
 pub mod c08;
+pub mod c09;
 pub mod c11;
 pub mod c12;
 pub mod c13;
@@ -32,6 +33,7 @@ pub fn dispatch_run(id: &str, run: &mut Run) -> bool {
         "C06" => c06::run(run),
         "C07" => c07::run(run),
         "C08" => c08::run(run),
+        "C09" => c09::run(run),
         "C11" => c11::run(run),
         "C12" => c12::run(run),
         "C13" => c13::run(run),
@@ -56,6 +58,7 @@ pub fn dispatch_replay(id: &str, check: &str, case: Value, run: &mut Run) -> Res
         "C06" => c06::replay(check, case, run),
         "C07" => c07::replay(check, case, run),
         "C08" => c08::replay(check, case, run),
+        "C09" => c09::replay(check, case, run),
         "C11" => c11::replay(check, case, run),
         "C12" => c12::replay(check, case, run),
         "C13" => c13::replay(check, case, run),
